@@ -33,7 +33,7 @@ import greenlet
 from drivers import simos_net as sn
 from drivers import simos_threads as sthr
 
-P_EVENTS = {"loop", "accept", "submit", "start", "jobend", "finish", "cancel", "close", "reclose",
+P_EVENTS = {"loop", "accept", "submit", "start", "jobend", "fbegin", "finish", "cancel", "close", "reclose",
             "reg", "connect", "send", "leave", "tick", "term", "quiescent", "exit", "crash", "pdead",
             "wouldblock", "steal"}
 ENV_STEPS = ("connect", "send", "leave", "tick", "term", "pdead", "failsend", "steal",
@@ -424,6 +424,7 @@ class Sim:
         elif name == "failsend":
             self.net.conns[c].fail_send = True
         elif name == "finish" and self.fine:
+            self.emit("fbegin", c)          # the done-callback (finish_request) starts in the pool thread
             rec = PoolG(c, greenlet.greenlet(lambda: self.pool.finish(c)))
             self.grecs[rec.g] = rec
             self.susp[c] = rec
@@ -433,6 +434,8 @@ class Sim:
             self._resume(self.susp[c], arg)
             return
         elif name in ("start", "handle", "finish", "crash", "cancel"):
+            if name == "finish":
+                self.emit("fbegin", c)
             getattr(self.pool, name)(c)
             return                      # the executor emitted the event
         self.emit(name, c, arg)
